@@ -37,8 +37,9 @@ func TestMain(m *testing.M) {
 
 // Case is the JSON replay unit: exactly one of TCP / UDP is set.
 type Case struct {
-	TCP *TCPCase `json:"tcp,omitempty"`
-	UDP *UDPCase `json:"udp,omitempty"`
+	TCP *TCPCase   `json:"tcp,omitempty"`
+	UDP *UDPCase   `json:"udp,omitempty"`
+	VC  *VConnCase `json:"vconn,omitempty"`
 }
 
 // failure is what an oracle returns; timing says that the verdict rests on a bounded
@@ -248,6 +249,9 @@ func run(c Case) (*failure, string, bool, string) {
 	if c.TCP != nil {
 		return runTCP(c.TCP)
 	}
+	if c.VC != nil {
+		return runVConn(c.VC)
+	}
 	return runUDP(c.UDP)
 }
 
@@ -338,7 +342,7 @@ func TestReplay(t *testing.T) {
 	if _, err := vkit.LoadReplay(path, &c); err != nil {
 		t.Fatalf("bad replay file: %v", err)
 	}
-	if c.TCP == nil && c.UDP == nil {
+	if c.TCP == nil && c.UDP == nil && c.VC == nil {
 		t.Fatalf("replay file holds neither a tcp nor a udp case")
 	}
 	check(t, c)
